@@ -697,6 +697,31 @@ func c13AfterLookup(st *c13State, res *core.Result, k int64) func(c *sw.ClientIn
 				}
 			}
 		}
+		// The same defect without a reported fork (finding F1, second form): before this Lookup was even
+		// called, the process had read a stored head that contradicts the head this lookup succeeds under.
+		if len(c.Security) == 0 {
+			key := "/lookup/" + sw.EscapeRef(q.Path) + "@" + sw.EscapeRef(strings.TrimSuffix(q.Vers, "/go.mod"))
+			if _, _, rest, ok := ref.SplitRecordMsg(string(c.Delivered[key])); ok {
+				if at, aok := sw.ValidSignedHead([]byte(rest)); aok {
+					an, ah, _ := ref.ParseTreeText(at)
+					la := st.lineageOfHead(an, ah)
+					start := c.LookupStart[c.CurrentTask]
+					for _, rd := range c.LatestReads {
+						if rd.Step >= start {
+							continue
+						}
+						if ct, cok := sw.ValidSignedHead(rd.Data); cok {
+							cn, ch, _ := ref.ParseTreeText(ct)
+							if lc := st.lineageOfHead(cn, ch); la != 0 && lc != 0 && la&lc == 0 {
+								st.res.Fail("C13", "no-success-against-stored-head-already-read", "a lookup succeeds under a tree that contradicts a stored head the same process had read before the lookup was called",
+									"client %d had read a stored head of size %d at step %d; Lookup(%s), called at step %d, succeeded with an answer whose head (size %d) is inconsistent with it: the in-memory head is on the other tree and later lookups are not compared with the configuration again", c.ID, cn, rd.Step, q, start, an)
+								break
+							}
+						}
+					}
+				}
+			}
+		}
 		key := "/lookup/" + sw.EscapeRef(q.Path) + "@" + sw.EscapeRef(strings.TrimSuffix(q.Vers, "/go.mod"))
 		data := c.Delivered[key]
 		if id, text, rest, ok := ref.SplitRecordMsg(string(data)); ok {
